@@ -49,8 +49,10 @@ struct internal_sparse_matrix{
         int rows = static_cast<int>(pntr.size() - 1);
         IO::writeNumbers<iomode, IO::pad_line>(os, rows, num_cols, nnz);
         IO::writeVector<iomode, IO::pad_line>(pntr, os);
-        IO::writeVector<iomode, IO::pad_line>(indx, os);
-        IO::writeVector<iomode, IO::pad_line>(vals, os);
+        if (nnz > 0){ // IO::writeVector() requires a non-empty vector
+            IO::writeVector<iomode, IO::pad_line>(indx, os);
+            IO::writeVector<iomode, IO::pad_line>(vals, os);
+        }
     }
     void write(std::string const &filename, bool use_ascii) const{
         if (not filename.empty()){
